@@ -14,6 +14,7 @@ from spacepackets.cfdp.pdu.file_directive import (
 )
 from spacepackets.cfdp.conf import PduConfig
 from spacepackets.crc import CRC16_CCITT_FUNC
+from spacepackets.exceptions import BytesTooShortError
 
 
 def get_max_seg_reqs_for_max_packet_size_and_pdu_cfg(
@@ -260,6 +261,13 @@ class NakPdu(AbstractFileDirectiveBase):
             struct_arg_tuple = ("!I", 4)
         else:
             struct_arg_tuple = ("!Q", 8)
+        end_of_segment_req_idx = nak_pdu.packet_len
+        if nak_pdu.pdu_file_directive.pdu_conf.crc_flag == CrcFlag.WITH_CRC:
+            end_of_segment_req_idx -= 2
+        if current_idx + 2 * struct_arg_tuple[1] > end_of_segment_req_idx:
+            raise BytesTooShortError(
+                current_idx + 2 * struct_arg_tuple[1], end_of_segment_req_idx
+            )
         nak_pdu.start_of_scope = struct.unpack(
             struct_arg_tuple[0],
             data[current_idx : current_idx + struct_arg_tuple[1]],
@@ -275,9 +283,6 @@ class NakPdu(AbstractFileDirectiveBase):
                 f"Passed data with length {len(data)} is longer than the NAK PDU with "
                 f"length {nak_pdu.packet_len}"
             )
-        end_of_segment_req_idx = nak_pdu.packet_len
-        if nak_pdu.pdu_file_directive.pdu_conf.crc_flag == CrcFlag.WITH_CRC:
-            end_of_segment_req_idx -= 2
         if current_idx < end_of_segment_req_idx:
             packet_size_check = (end_of_segment_req_idx - current_idx) % (
                 struct_arg_tuple[1] * 2
